@@ -1231,7 +1231,8 @@ def mutate_path(rng, pb, p):
         return (Sb, Cb, Db), "duration-changed"
     if kind == 2:
         j = rng.below(n - 1)
-        Cb[2 * j] = B(F(Cb[2 * j]) + 0.01)
+        # (a discrete control is an integer: the harness stores (int)value, so a fractional change would not survive the protocol)
+        Cb[2 * j] = B(F(Cb[2 * j]) + (1.0 if pb.sy.kind == "dpoint" else 0.01))
         return (Sb, Cb, Db), "control-changed"
     j = rng.below(n - 1)
     Sb2 = Sb[:(j + 1) * nr]
